@@ -5,7 +5,7 @@
    between any pair of contiguous slices. *)
 From Coq Require Import QArith ZArith List Bool Arith.
 From LV Require Import Align.DP Align.Calign Align.LibScore Align.Opt Align.OptProofs
-  Align.Malign Align.MalignOptProofs Align.LevProofs Align.SelfDist Align.SelfDistShipped.
+  Align.Malign Align.MalignOptProofs Align.LevProofs Align.SelfDist Align.DialignSelf Align.SelfDistShipped.
 From LVGen Require Import Scorers.
 Import ListNotations.
 Local Open Scope Q_scope.
@@ -117,7 +117,7 @@ Print Assumptions C03_edit_dist_metric.
    prosodic string, gap weights with non-positive penalties, scale >= 0, factor >= 0 - at EVERY scale,
    not only scale = 1 - and global, overlap and local mode, primary or secondary: the similarity of the
    word with itself is its self-score, so the normalised distance is 0 (guard: self-score <> 0,
-   otherwise the Python divides by zero).  Dialign is not covered by a theorem (partial). *)
+   otherwise the Python divides by zero).  Dialign mode: next theorem. *)
 Theorem C03_self_distance_zero_shipped :
   forall cs sc, In (cs, sc) shipped_scorers ->
   forall (p : cin) (md : mode) (sec : bool),
@@ -133,6 +133,21 @@ Theorem C03_self_distance_zero_shipped :
     end.
 Proof. exact shipped_self_similarity. Qed.
 Print Assumptions C03_self_distance_zero_shipped.
+
+(* ... and dialign mode, primary or secondary (the dialign recurrence has no gap costs, so there is no
+   condition on weights, gop or scale): every mode of every shipped model is covered *)
+Theorem C03_self_distance_zero_shipped_dialign :
+  forall cs sc, In (cs, sc) shipped_scorers ->
+  forall (p : cin) (sec : bool),
+    scorer p = sc -> seqB p = seqA p -> proB p = proA p ->
+    (forall a, In a (seqA p) -> In a cs) ->
+    0 <= factor p -> seqA p <> [] ->
+    match align p Dialign sec with
+    | RGlobal _ _ sim => sim == self2 p /\ (~ self2 p == 0 -> distance p sim == 0)
+    | _ => False
+    end.
+Proof. exact shipped_self_similarity_dialign. Qed.
+Print Assumptions C03_self_distance_zero_shipped_dialign.
 
 (* the abstract version: any scorer that is non-negative on the diagonal and dominated by the
    average of the two diagonal entries on the symbols of the word *)
